@@ -240,7 +240,9 @@ func checkC12(c *core.Ctx) error {
 		sort.Ints(idxs)
 	}
 	defaults := map[string]string{"equal": "deriveEqual", "compare": "deriveCompare", "deepcopy": "deriveDeepCopy"}
-	mkPkg := func(id string, names map[string]string, flags []string) *Scenario {
+	// oneArg: the main call passes a single argument: the curried form for equal and compare, an arity error for
+	// deepcopy (then both the renamed and the default run must fail, and no other plugin may pick the call up)
+	mkPkg := func(id string, names map[string]string, flags []string, oneArg bool) *Scenario {
 		sc := &Scenario{ID: id, Files: map[string]string{}, PkgDir: "p", Flags: flags}
 		sc.Files["go.mod"] = "module m\n\ngo 1.24\n"
 		sc.Files["p/types.go"] = "package p\n\ntype S1 struct {\n\tA int\n\tB []string\n\tN *S1\n\tM map[string]*S1\n}\n\ntype S2 struct {\n\tC float64\n\tD map[int][]bool\n\tE *S1\n}\n"
@@ -256,7 +258,11 @@ func checkC12(c *core.Ctx) error {
 			if k == "main" {
 				typ = "*S1"
 			}
-			fmt.Fprintf(&b, "\nfunc use_%s(a, b %s) {\n\t%s(a, b)\n}\n", k, typ, names[k])
+			args := "a, b"
+			if oneArg && k == "main" {
+				args = "a"
+			}
+			fmt.Fprintf(&b, "\nfunc use_%s(a, b %s) {\n\t%s(%s)\n}\n", k, typ, names[k], args)
 		}
 		sc.Files["p/calls.go"] = b.String()
 		return sc
@@ -293,9 +299,13 @@ func checkC12(c *core.Ctx) error {
 			sort.Strings(kv)
 			flags = append(flags, "-pluginprefix="+strings.Join(kv, ","))
 		}
-		r := mkPkg(fmt.Sprintf("c12-%05d-R", i), namesR, flags)
+		oneArg := i%3 == 1
+		r := mkPkg(fmt.Sprintf("c12-%05d-R", i), namesR, flags, oneArg)
 		r.Note = fmt.Sprintf(" call=%s eff=%v", d.Call, d.Eff)
-		t := mkPkg(fmt.Sprintf("c12-%05d-D", i), namesD, nil)
+		t := mkPkg(fmt.Sprintf("c12-%05d-D", i), namesD, nil, oneArg)
+		if oneArg {
+			r.Note += " one-argument call"
+		}
 		binOf[r.ID] = bins[n%len(bins)]
 		binOf[t.ID] = bins[0]
 		pairs = append(pairs, pair{d, len(scs), len(scs) + 1, want})
@@ -336,8 +346,8 @@ func checkC12(c *core.Ctx) error {
 		if handled != nil {
 			obs["handled"] = handled
 		}
-		if t.Exit == 0 {
-			dOK++
+		if t.Exit == 0 || (p.d.Plugin == "deepcopy" && strings.Contains(scs[p.r].Note, "one-argument")) {
+			dOK++ // a one-argument deriveDeepCopy is an arity error by construction
 		}
 		if r.Exit == 0 && t.Exit == 0 {
 			bothOK++
